@@ -94,6 +94,30 @@ theorem C11_rr_rotates_partial (p : Pol) (up : Nat → Bool) (l : List Host)
   · rw [shift_small _ (by rw [h1]; omega), h1, ← layerSeq_succ]
     exact layerScan_small (p.ctr + 1 + 1) l (by omega)
 
+theorem rot_one_cons (x : Host) (r : List Host) : rot 1 (x :: r) = r ++ [x] := by
+  cases r with
+  | nil => simp [rot]
+  | cons y t =>
+    have e : 1 % (x :: y :: t).length = 1 := Nat.mod_eq_of_lt (by simp)
+    unfold rot
+    rw [e]
+    rfl
+
+/-- what the rotation by one means for the OFFERED sequences (down hosts filtered out) of two successive
+picks over the same layer: if the host the first pick starts its scan at is up, the second sequence is the
+first rotated by one; if it is down, the two sequences are equal. (The harness checks this relation between
+successive picks on the real code; with all hosts up it is the rotation.) -/
+theorem C11_rotate_offered (f : Host → Bool) (x : Host) (r : List Host) :
+    (rot 1 (x :: r)).filter f = if f x = true then rot 1 ((x :: r).filter f) else (x :: r).filter f := by
+  rw [rot_one_cons, List.filter_append]
+  by_cases h : f x = true
+  · have e : (x :: r).filter f = x :: r.filter f := List.filter_cons_of_pos h
+    rw [if_pos h, e, rot_one_cons]
+    simp [h]
+  · have e : (x :: r).filter f = r.filter f := List.filter_cons_of_neg h
+    rw [if_neg h, e]
+    simp [h]
+
 def cexW1 : Host := ⟨1, 1, 0, 0, []⟩
 def cexW2 : Host := ⟨2, 2, 0, 0, []⟩
 def cexW3 : Host := ⟨3, 3, 0, 0, []⟩
